@@ -2124,6 +2124,9 @@ void strip_line_tokens_from_block(mmd_engine * e, token * block) {
 
 	token * l = block->child;
 
+	// Lines may be discarded below, but they stay inside the span of the block
+	size_t block_len = block->len;
+
 	// Custom actions
 	switch (block->type) {
 		case BLOCK_META:
@@ -2306,6 +2309,11 @@ handle_line:
 				l = temp;
 				break;
 		}
+	}
+
+	if ((block->type == BLOCK_CODE_INDENTED) && (block->len < block_len)) {
+		// Trailing empty lines were stripped from the content, not from the source
+		block->len = block_len;
 	}
 
 	// Free token chain of line types
